@@ -4,7 +4,8 @@ Decides: which state each IF.LDM.3 / IF.LDM.4 operation may and must touch (effe
 id counter and the two registries - add / update / delete reach the store and leave the registries alone, registration
 touches only its own registry, a query writes nothing); that every store-mutating service call sits under
 `application_id in <provider registry getter>()` and every query under the consumer one, and registry cache coherence:
-when a getter answers from a cached view, every method that changes the registry resets that view (gated); that an
+when a getter answers from a cached view, every method that changes the registry resets that view, and the two registries are
+bound to containers of their own - never one object under both names (gated); that an
 update replaces only the record's content member, on both back-ends (update-scope); that results tested for success
 can be successes - the tested callee does not return None on every path (dead-success); that every key of the stored
 record is fed by the same-named attribute of the request (record-faithful); identifier allocation (ids: id = counter,
@@ -721,6 +722,34 @@ def run(ctx):
                        f"{m.name} changes {reg} and resets the cached view {cache}" if inval else
                        f"{getter} answers from the cached view `{cache}`, but {m.name} changes {reg} without resetting it: the gate keeps "
                        "seeing a stale registry (a deregistered application is still accepted / a registered one refused)", m.loc)
+    # the provider registry and the consumer registry are two objects: every binding of either field is a fresh container
+    # of its own (a shared object makes a registered provider a consumer and the other way round)
+    regs = ("data_provider_its_aid", "data_consumer_its_aid")
+    n_bind = 0
+    for m in sv.methods.values():
+        for n in ast.walk(m.node):
+            tgts = n.targets if isinstance(n, ast.Assign) else [n.target] if isinstance(n, ast.AnnAssign) and n.value is not None else []
+            mine = [dotted(t)[5:] for t in tgts if (dotted(t) or "").startswith("self.") and dotted(t)[5:] in regs]
+            if not mine:
+                continue
+            n_bind += len(mine)
+            v = n.value
+            fresh = (isinstance(v, (ast.Set, ast.SetComp, ast.List, ast.ListComp, ast.Dict)) or
+                     (isinstance(v, ast.Call) and isinstance(v.func, ast.Name) and v.func.id in ("set", "list", "frozenset", "dict")) or
+                     (isinstance(v, ast.Call) and isinstance(v.func, ast.Attribute) and v.func.attr == "copy" and not v.args))
+            shared = len(tgts) > 1 and not isinstance(v, (ast.Constant,)) and not (isinstance(v, ast.Call) and isinstance(v.func, ast.Name) and v.func.id == "frozenset")
+            other = [r for r in regs if r not in mine and any(dotted(x) == f"self.{r}" for x in ast.walk(v) if isinstance(x, ast.Attribute))]
+            aliased = bool(other) and not (isinstance(v, ast.Call) and ((isinstance(v.func, ast.Name) and v.func.id in ("set", "list", "frozenset")) or
+                                                                      (isinstance(v.func, ast.Attribute) and v.func.attr == "copy")))
+            ok = fresh and not shared and not aliased
+            ctx.ob("C12.gated", m.short(), "registries-separate:" + "+".join(mine), ok,
+                   f"{'/'.join(mine)} is bound to a container of its own" if ok else
+                   f"{'/'.join(mine)} is bound to an object that another name keeps as well (" +
+                   ("one value for several targets" if shared else f"alias of {other}" if aliased else "not a fresh container") +
+                   "): registering on one side registers on the other, so the provider / consumer gates no longer separate the roles",
+                   f"{m.module.rel}:{n.lineno}")
+    if n_bind < 2:
+        raise AnalysisError(f"C12: only {n_bind} bindings of the provider / consumer registries found (confirmed: 2)")
     # garbage collection certainly applies the time-validity predicate (must-call on every normal exit)
     ct = P.func(f"{MT}.collect_trash")
     cfl = ctx.flows.get(ct)
